@@ -43,7 +43,9 @@ for _b, _t, _z in [("varchar(10)", "varchar", 10), ("decimal(10,2)", "decimal", 
                    ("double precision", "double precision", None)]:
     for _s in ("[]", "[][]", " []"):
         SIZED.append((_b + _s, _t + _s.strip(), _z))
-SIZED += [("clob(1M)", "clob", "1M"), ("blob(2G)", "blob", "2G"), ("varchar(32K)", "varchar", "32K"),  # DB2 sizes with a unit suffix
+SIZED += [("timestamp(0)", "timestamp", 0), ("time(0)[]", "time[]", 0), ("numeric(12,0)", "numeric", [12, 0]), ("varchar(0)", "varchar", 0),
+          ("datetime(0)", "datetime", 0), ("timestamp(0) without time zone", "timestamp", 0), ("number(*,0)", "number", ["*", 0]),
+          ("clob(1M)", "clob", "1M"), ("blob(2G)", "blob", "2G"), ("varchar(32K)", "varchar", "32K"),  # DB2 sizes with a unit suffix
           ("int(6) unsigned", "int unsigned", 6), ("decimal(10,2) unsigned", "decimal unsigned", [10, 2]), ("decimal(10, 2) unsigned", "decimal unsigned", [10, 2]),
           ("timestamp(3) with time zone", "timestamp", 3), ("time(3) without time zone", "time", 3)]
 
